@@ -1001,6 +1001,15 @@ class Interp:
         if src.startswith("ForLoopDesugar"):
             return self.for_loop(e, env)
         scrut = self.eval(e["scrut"], env)
+        if isinstance(scrut, PlaceRef):
+            scrut = self.read_place(scrut.var, scrut.path, env)
+        if isinstance(scrut, Opt):
+            # matching through a reference (`match &opt` / default binding modes) wraps the arm patterns in deref nodes
+            def strip_deref(p):
+                while isinstance(p, dict) and p.get("k") == "deref" and "sub" in p:
+                    p = p["sub"]
+                return p
+            e = dict(e, arms=[dict(a, pat=strip_deref(a["pat"])) for a in e["arms"]])
         # Option / simple enum matches with a statically known variant
         if isinstance(scrut, Opt) and isinstance(scrut.some, bool):
             for arm in e["arms"]:
